@@ -598,6 +598,25 @@ def replay_resolve(exe, failures):
     return {"status": "not_reproduced" if ran else "unavailable", "summary": "native results agree" if ran else "no scenario could be made concrete", "attempts": tried}
 
 
+def replay_chain(exe, failures):
+    """a counterexample whose run starts at a call depth of 1..=16 (where evaluation must still work):
+    confirm with a chain of stored programs that deep, evaluated through the public API"""
+    depths = sorted({(f.get("scenario") or {}).get("depth_on_entry") for f in failures} - {None})
+    depths = [d for d in depths if 1 <= d <= 16]
+    if not depths:
+        return {"status": "unavailable", "summary": "no counterexample inside the depth range that must evaluate"}
+    d = depths[-1]
+    progs = [[f"p{i}", f"p{i + 1}"] for i in range(d)] + [[f"p{d}", "1"]]
+    out, why = run(exe, "eval", [{"programs": progs, "run": ["p0"], "params": {}}])
+    if out is None:
+        return {"status": "unavailable", "summary": why}
+    res = out[0].get("results", [{}])[0]
+    rec = {"label": f"reference chain {d} deep", "programs": f"p0 := p1, .., p{d} := 1", "native": res}
+    if res.get("ok") != "Int(1)":
+        return {"status": "reproduced", "summary": f"a chain of {d} references between stored programs (p0 := p1, .., p{d} := 1) does not evaluate: {res}; chains at least 16 deep must", "attempts": [rec]}
+    return {"status": "not_reproduced", "summary": f"a reference chain {d} deep evaluates natively", "attempts": [rec]}
+
+
 def replay_depth(exe, failures):
     """the symbolic run found an exit path of run_raw that does not release the call-depth counter:
     confirm with evaluations whose nested runs take that kind of exit more often than the limit"""
@@ -807,6 +826,9 @@ def main():
             r = r2 if r2["status"] == "reproduced" else r
     elif any((f.get("scenario") or {}).get("kind") == "vm" for f in fails):
         r = replay_vm(exe, fails)
+        if r["status"] != "reproduced":
+            r2 = replay_chain(exe, fails)
+            r = r2 if r2["status"] == "reproduced" else r
     elif any((f.get("scenario") or {}).get("kind") == "sql" for f in fails):
         from replay_sql import replay_sql, build_sql
         exe_sql, why = build_sql(repo, cache)
